@@ -1,6 +1,6 @@
 SPECIFICATION GenSpec
 CONSTANTS
-  Models = {"sphere", "cylinder", "broad_peak", "sphere@hardsphere", "sphere+cylinder"}
+  Models = {"sphere", "cylinder", "broad_peak", "sphere@hardsphere", "sphere+cylinder", "vscalar"}
   Focus = "all"
   WModels = {"sphere", "cylinder", "broad_peak"}
   QSets = {"q1", "q2", "qxy"}
